@@ -44,9 +44,20 @@ TIE = {
     'gen_modules': MODULE_ORDER,
     'order': 35,
     'chain': ['MalVerif.Py.AbsLangType', 'MalVerif.Py.TieLangTypePhases', 'MalVerif.Py.TieLangType',
-              'MalVerif.Py.TieLangTypeBuild', 'MalVerif.PropsGen.C15_Build'],
+              'MalVerif.Py.TieLangTypeBuild', 'MalVerif.Py.TieLangTypeSpec', 'MalVerif.Py.TieLangTypeFuel',
+              'MalVerif.Py.TieLangTypeBuilt', 'MalVerif.Py.TieLangTypeHelpers',
+              'MalVerif.Py.TieLangTypeComplete', 'MalVerif.Py.TieLangTypeSound', 'MalVerif.Py.TieLangTypeAssets',
+              'MalVerif.Py.TieLangTypeDecl', 'MalVerif.Py.TieLangTypeAssocs', 'MalVerif.Py.TieLangTypeSteps',
+              'MalVerif.Py.TieLangTypeLinks', 'MalVerif.Py.TieLangTypeGeneral', 'MalVerif.Py.TieLangTypeFinal',
+              'MalVerif.Py.TieLangTypeRev', 'MalVerif.Py.TieLangTypeParam', 'MalVerif.Py.TieLangTypeTotal',
+              'MalVerif.PropsGen.C15_Build'],
     'needs': {'C15': ['MalVerif.Py.TieLangTypePhases', 'MalVerif.Py.TieLangType', 'MalVerif.Py.TieLangTypeBuild',
-                      'MalVerif.PropsGen.C15_Build']},
+                      'MalVerif.Py.TieLangTypeSpec', 'MalVerif.Py.TieLangTypeFuel', 'MalVerif.Py.TieLangTypeBuilt',
+                      'MalVerif.Py.TieLangTypeHelpers', 'MalVerif.Py.TieLangTypeComplete',
+                      'MalVerif.Py.TieLangTypeSound', 'MalVerif.Py.TieLangTypeAssets', 'MalVerif.Py.TieLangTypeDecl',
+                      'MalVerif.Py.TieLangTypeAssocs', 'MalVerif.Py.TieLangTypeSteps', 'MalVerif.Py.TieLangTypeLinks',
+                      'MalVerif.Py.TieLangTypeGeneral', 'MalVerif.Py.TieLangTypeFinal', 'MalVerif.Py.TieLangTypeRev',
+                      'MalVerif.Py.TieLangTypeParam', 'MalVerif.Py.TieLangTypeTotal', 'MalVerif.PropsGen.C15_Build']},
     'sources': {'C15': 'language/languagegraph.py: LanguageGraph._generate_graph, process_step_expression, '
                        'reverse_dep_chain, _get_associations_for_asset_type; '
                        'LanguageGraphAsset.get_all_common_superassets, is_subasset_of (argument may be None)'},
